@@ -92,9 +92,12 @@ class Contract:
             return f
         return deco(fn) if fn else deco
 
-    def ensures(self, fn=None, *, name=None, aux=False, note="", props=None):
+    def ensures(self, fn=None, *, name=None, aux=False, note="", props=None, only_exit=None):
+        """only_exit="end": the clause is about falling off the end of the (region) body only, not about `return` exits"""
         def deco(f):
-            self.ensures_.append(Clause(name or f.__name__, f, "ensures", aux=aux, note=note, props=props))
+            cl = Clause(name or f.__name__, f, "ensures", aux=aux, note=note, props=props)
+            cl.only_exit = only_exit
+            self.ensures_.append(cl)
             return f
         return deco(fn) if fn else deco
 
